@@ -70,7 +70,9 @@ type DHTJoinParams struct {
 // DHTJoin joins a node to the rest of the DHT.
 func DHTJoin(params DHTJoinParams) int {
 	var added int
-	dhtIterate(params.Initial, params.Target[:], len(params.Initial), func(node NodeInfo) ([]NodeInfo, bool) {
+	// consider at least 1 candidate at a time, an empty Initial must not panic.
+	n := max(len(params.Initial), 1)
+	dhtIterate(params.Initial, params.Target[:], n, func(node NodeInfo) ([]NodeInfo, bool) {
 		if params.AddPeer(node.ID, node.Info) {
 			added++
 		}
@@ -169,7 +171,9 @@ func DHTPut(params DHTPutParams) (*DHTPutResult, error) {
 		TTLms: uint64(params.TTL.Milliseconds()),
 	}
 	var res DHTPutResult
-	dhtIterate(params.Initial, params.Key, len(params.Initial)*3/2, func(node NodeInfo) ([]NodeInfo, bool) {
+	// consider at least 1 candidate at a time, an empty Initial must not panic.
+	n := max(len(params.Initial)*3/2, 1)
+	dhtIterate(params.Initial, params.Key, n, func(node NodeInfo) ([]NodeInfo, bool) {
 		res.Contacted++
 		resp, err := params.Ask(node, req)
 		if err != nil {
